@@ -1992,6 +1992,7 @@ Proof.
   - (* ECall *) rewrite sx_call_S in H. cbn [nocall andb] in Hn.
     eapply call_body_tidy; [|exact H]. intros m1 E1. destruct g as [|g]; [discriminate|].
     cbn [moded_operand valueless negb andb] in Hm.
+    apply andb_true_iff in Hm. destruct Hm as (_ & Hm).
     apply (Hops g h args m m1 Hm Hn E1).
   - (* EAssign *) cbn [nocall] in Hn. cbn [ExecFun.sx] in H. inv_then H m1 E1.
     apply pop1s_inv in H. destruct H as (x & s & Es & H). injection H as <-.
